@@ -360,6 +360,7 @@ fn replay_lines(lines: &[(usize, String)], mode: &str, skip: &std::collections::
             "rdec" => crate::range_replay::rdec_case(&case, mode, &mut rep),
             "chain" => crate::chain_replay::chain_case(&case, mode, &mut rep),
             "huffman" => crate::symbol_replay::huffman_case(&case, mode, &mut rep),
+            "huffman_f32" => crate::symbol_replay::huffman_f32_case(&case, mode, &mut rep),
             "expgolomb" | "expgolomb_max" => crate::symbol_replay::golomb_case(&case, mode, &mut rep),
             "bits" => crate::bits_replay::bits_case(&case, mode, &mut rep),
             "backend" | "adapters" => crate::backend_replay::backend_case(&case, mode, &mut rep),
